@@ -7,7 +7,7 @@
    The render itself is abstract: a deterministic step system [next] of which the tracker sees,
    per executed instruction, only its cost ([fuel_for_instruction]: 0 or 1).  [Monitor] is the
    generic shape "a step system watched by an observer that can only abort". *)
-From MJ Require Import Common.Base.
+From MJ Require Import Common.Base C13.GenFuelTable.
 
 (* ---------------------------------------------------------------------------------------- *)
 (* generic monitor                                                                          *)
@@ -112,6 +112,28 @@ Fixpoint probe_accs (acc : Z) (evs : list event) : list Z :=
   | [] => []
   | Probe :: r => acc :: probe_accs acc r
   | Instr c :: r => probe_accs (acc + c) r
+  end.
+
+(* ---------------------------------------------------------------------------------------- *)
+(* fuel_for_instruction: the table generated from vm/fuel.rs (C13/GenFuelTable.v); opcodes are  *)
+(* identified by the position of their variant in `enum Instruction`                          *)
+(* ---------------------------------------------------------------------------------------- *)
+Fixpoint lookup_cost (op : Z) (t : list (Z * Z)) : option Z :=
+  match t with
+  | [] => None
+  | (o, c) :: r => if o =? op then Some c else lookup_cost op r
+  end.
+
+Definition cost_of (op : Z) : option Z := lookup_cost op fuel_table.
+
+(* the costs of an executed instruction trace; [None] when an opcode is not an instruction *)
+Fixpoint stream_costs (ops : list Z) : option (list Z) :=
+  match ops with
+  | [] => Some []
+  | op :: r => match cost_of op, stream_costs r with
+               | Some c, Some cs => Some (c :: cs)
+               | _, _ => None
+               end
   end.
 
 (* ---------------------------------------------------------------------------------------- *)
